@@ -36,8 +36,8 @@ def c02(tier):
         # the slot-level environment model (spec/Machine.tla): every lambda's captured-variable set must contain
         # every free variable bound by the enclosing lambda, CLOSURE / ENTER build the environments with the
         # pointer indirection that makes closures share locations; compiler listing and register trace
-        mcov.update(mach.run(verdict, wd, [('scope2', 15 if q else 800), ('scope3', 20 if q else 1500),
-                                           ('scopeloop', 8 if q else 200)], vlib.seed()))
+        mcov.update(mach.run(verdict, wd, [('scope2', 15 if q else 400), ('scope3', 20 if q else 500),
+                                           ('scopeloop', 8 if q else 100)], vlib.seed()))
         mcov['design_check'] = mach.design_check(verdict, wd, 'MC_Machine_q.cfg' if q else 'MC_Machine_t.cfg')
 
     def extra(sessions, ends):
